@@ -57,3 +57,21 @@ Theorem C01_filter_dn_refuted :
   decompile_filter (enc_filter (FExt (Some [50]) (Some [99; 110]) [97] true)) = Err.
 Proof. exact decompile_dn_refuted. Qed.
 Print Assumptions C01_filter_dn_refuted.
+
+(* requests pipelined on one connection: the read loop (frame after frame on the shared
+   reader) delivers every request of the concatenated stream exactly as if it had come
+   alone, in order, up to and including the first Unbind - whatever else is on the
+   connection before or behind it.  (What the handler goroutines are then GIVEN is the
+   dispatch of Sys.v / C06; the correspondence run sends the generated requests forty at a
+   time in one segment to a real server and compares what the handlers received.) *)
+Theorem C01_pipelined : forall prim_ok strict rs, Forall (fun r => wf_request r = true) rs ->
+  forall fuel, (length rs < fuel)%nat ->
+  serve_stream prim_ok strict true fuel (concat (map wire rs)) =
+  map (fun r => Ok (msg_of_request r)) (upto_unbind rs).
+Proof. exact serve_stream_pipeline. Qed.
+Print Assumptions C01_pipelined.
+
+Theorem C01_frame_consumed_exactly : forall prim_ok strict r rest, wf_request r = true ->
+  server_receive_rest prim_ok strict true (wire r ++ rest) = Ok (msg_of_request r, rest).
+Proof. exact server_receive_rest_wire. Qed.
+Print Assumptions C01_frame_consumed_exactly.
